@@ -1078,7 +1078,7 @@ def convert_var_to_hss(
         vector = np.insert(vector, hs_size * (num_outcomes - 1), first_row_of_last_hs)
 
     else:
-        vector = var
+        vector = copy.copy(var)
         num_outcomes = vector.shape[0] // hs_size
 
     vec_list = []
